@@ -163,7 +163,7 @@ func tokenFamilies(tier string) []*core.Family {
 		tfs = append(tfs, newTokFamily("a-tokens-core-len4", tokCore, 4, 4))
 		budgets = append(budgets, 0)
 		tfs = append(tfs, newTokFamily("a-tokens-core-len5", tokCore, 5, 5))
-		budgets = append(budgets, 420)
+		budgets = append(budgets, 300)
 	} else {
 		tfs = append(tfs, newTokFamily("a-tokens-full-len0-2", tokAlphabet, 0, 2))
 		budgets = append(budgets, 0)
